@@ -7,6 +7,7 @@ lengths are those of `Layout.lean` (C02).
 -/
 import DdsModel.Proofs.Header
 import DdsModel.Proofs.HeaderDefects
+import DdsModel.Proofs.HeaderLayout
 import DdsModel.HeaderTables
 import DdsModel.Drv.C18
 namespace Dds.C18
@@ -167,5 +168,21 @@ example : exMip.WF ∧ pixelInfoOf exMip = some (.block 8 4 4) ∧ exMip.layoutL
     Defect.dropMipFlags.Applies exMip ∧ (Defect.pfSize 0).Applies exMip := by decide
 example : (Defect.arraySize 6).Applies exHeader ∧
     (Defect.pfFlags 0).Applies (.dx9 (Dx9Header.new .image 4 4 0 (.fourCC FOURCC_DXT1))) := by decide
+
+
+/-- The model folds a panic inside the `test` closure of `fix_based_on_file_len` into "length
+unknown"; this is sound because there is none: for every well-formed header (every parsed
+header and every repair candidate is one, `C09.parsed_wf`) and well-formed pixel info,
+`DataLayout::from_header_with` returns and `data_len()` of the layout is defined and `< 2^64`. -/
+theorem repair_no_panic (h : Header) (hwf : h.WF) (px : PixelInfo) (hp : px.WF) :
+    layoutOf h.toLayoutHeader px ≠ none ∧
+    ∀ L, layoutOf h.toLayoutHeader px = some (.ok L) → ∃ n, L.dataLenP = some n ∧ n < U64 :=
+  Header.layoutLen_no_panic hwf hp
+
+/-- every pixel info of the pinned tables is well-formed (block sizes 1..15 etc.) -/
+theorem pinned_pixel_infos_wf :
+    (∀ r ∈ dxgiRows, ∀ px, r.px = some px → px.WF) ∧
+    (∀ f ∈ Format.all, ∀ px, f.pixelInfo = some px → px.WF) := by
+  constructor <;> decide +kernel
 
 end Dds.C18
